@@ -159,6 +159,27 @@ func RunC12(c *Ctx) {
 			func(b []byte, v *string) (int, error) { return rjson.DecodeString(b, v, &bigScratch) },
 			[2]string{"sentinel-three", "y"}, eqc[string])
 		c12Alias(c, cs, d, &aliasBuf)
+		// a target stored WITHOUT a scratch must own its memory: the caller refills its input buffer
+		// and decodes something else (or fails to) into another target (seeded change C12r8-m1)
+		if len(d) <= 4096 && bytes.IndexByte(d, '"') >= 0 {
+			c.Guarded(cs, "DecodeString(nil scratch) ownership", func() {
+				w := append([]byte(nil), d...)
+				var s1 string
+				if _, e := rjson.DecodeString(w, &s1, nil); e == nil {
+					want := strings.Clone(s1)
+					for i := range w {
+						w[i] = '1'
+					}
+					var other string
+					rjson.DecodeString(w, &other, nil)
+					c.Rec.Evals(2)
+					c.Rec.C("targets_stored_without_scratch_rechecked_after_the_input_was_refilled")
+					if s1 != want {
+						c.Rec.Violate(cs, "a DecodeString target (nil scratch) changed when the caller refilled its input buffer", "DecodeString", h.Quote([]byte(want)), h.Quote([]byte(s1)))
+					}
+				}
+			})
+		}
 		if c.Rec.WantSample() && c.Rec.R.Cases%5003 == 1 {
 			t := int64(-5)
 			p, err := rjson.DecodeInt64(d, &t)
@@ -206,6 +227,14 @@ func RunC12(c *Ctx) {
 	workload.W6Special(sink)
 	workload.W6Exponents(3, c.Seed, sink)
 	workload.W5([]int{3000, 70000}, sink) // long tokens: size thresholds of scratch handling
+	// string tokens cut anywhere, one injected byte, a foreign continuation (incl. null and literal
+	// tails) and the closing quote (seeded change C06r8-m1: the null fallback resumed where the
+	// string reader had stopped, so "abc<TAB>null succeeded)
+	workload.W2T(false, func(cs *h.Case) {
+		if len(cs.Input) > 0 && cs.Input[0] == '"' {
+			sink(cs)
+		}
+	})
 	if c.Thorough() {
 		workload.W7Generated(300000, c.Seed, sink)
 	} else {
